@@ -205,6 +205,35 @@ pub fn encode_cmd(args: &[String]) {
     out.flush();
 }
 
+/// encbytes --in cases.ndjson --out events : program (all zlib data as stored blocks) + the bytes the encoder wrote,
+/// for the byte-level cross-check against AseBytes!Encode (Trace_Bytes)
+pub fn encbytes_cmd(args: &[String]) {
+    use crate::prog::Chunk;
+    let input = arg(args, "--in").unwrap_or("-");
+    let mut out = Out::new(arg(args, "--out").unwrap_or("-"));
+    for line in read_lines(input) {
+        if line.trim().is_empty() {
+            continue;
+        }
+        let case: Value = serde_json::from_str(&line).unwrap();
+        let Some(pv) = case.get("prog") else { continue };
+        let mut p: Program = serde_json::from_value(pv.clone()).unwrap();
+        for f in &mut p.frames {
+            for c in &mut f.chunks {
+                match c {
+                    Chunk::Cel(c) => c.store = "stored".into(),
+                    Chunk::Tileset(t) => t.store = "stored".into(),
+                    _ => {}
+                }
+            }
+        }
+        p.normalize();
+        let enc = prog::encode(&p);
+        out.ev(&json!({"ev": "enc", "case": case["id"], "prog": p, "bytes": enc.bytes, "eof": enc.end_of_frames}));
+    }
+    out.flush();
+}
+
 /// fields --in cases.ndjson : prints the encoder's field table per case
 pub fn fields_cmd(args: &[String]) {
     let input = arg(args, "--in").unwrap_or("-");
@@ -391,6 +420,23 @@ pub fn blend_cmd(args: &[String]) {
     }
     println!("{}", json!({"events": o.events, "vectors": o.vectors}));
 }
+/// End of the last frame, from the bytes alone (header frame count, then each frame's size field).
+pub fn end_of_frames(b: &[u8]) -> usize {
+    if b.len() < 128 {
+        return b.len();
+    }
+    let n = u16::from_le_bytes([b[6], b[7]]) as usize;
+    let mut pos = 128usize;
+    for _ in 0..n {
+        if pos + 4 > b.len() {
+            return b.len();
+        }
+        let sz = u32::from_le_bytes([b[pos], b[pos + 1], b[pos + 2], b[pos + 3]]) as usize;
+        pos = pos.saturating_add(sz);
+    }
+    pos.min(b.len())
+}
+
 /// cuts --in cases.ndjson --out events.ndjson
 /// For each case: load every strict prefix 0..eof-1 and the prefix of length eof and the full file.
 /// One event per file: results[k] = result class of the prefix of length k (k = 0..eof).
@@ -404,11 +450,21 @@ pub fn cuts_cmd(args: &[String]) {
         }
         let case: Value = serde_json::from_str(&line).unwrap();
         let (bytes, _, enc) = case_bytes(&case);
-        let eof = enc.as_ref().map_or_else(|| case.get("eof").and_then(|e| e.as_u64()).map_or(bytes.len(), |e| e as usize), |e| e.end_of_frames);
+        let eof = enc.as_ref().map_or_else(|| end_of_frames(&bytes), |e| e.end_of_frames);
         if eof > max_eof {
             continue;
         }
         let full = load_bytes(&bytes);
+        if full.result != "ok" && !full.result.starts_with("err:") {
+            // a crash of the full load is reported (C04 territory, but it must not pass silently here)
+            out.ev(&json!({"ev": "skip", "case": case["id"], "why": full.result, "crash": true}));
+            continue;
+        }
+        if full.result != "ok" {
+            // not a valid file (C13 quantifies over strict prefixes of VALID files)
+            out.ev(&json!({"ev": "skip", "case": case["id"], "why": full.result, "crash": false}));
+            continue;
+        }
         let full_obs = full.ase.as_ref().map(|a| observe::observe(a, &Limits { pixels: false, max_canvas: 1 << 16, max_cels: 4 }));
         let mut results: Vec<String> = Vec::with_capacity(eof + 1);
         let mut same_as_full: Vec<bool> = Vec::with_capacity(eof + 1);
@@ -421,7 +477,8 @@ pub fn cuts_cmd(args: &[String]) {
             results.push(ld.result);
             same_as_full.push(same);
         }
-        out.ev(&json!({"ev": "cuts", "case": case["id"], "len": bytes.len(), "eof": eof, "full": full.result, "results": results, "same_as_full": same_as_full}));
+        out.ev(&json!({"ev": "cuts", "case": case["id"], "len": bytes.len(), "eof": eof, "full": full.result, "results": results, "same_as_full": same_as_full,
+            "bytes": if bytes.len() <= 200_000 { json!(bytes) } else { json!([]) }}));
         out.flush();
     }
 }
@@ -566,10 +623,16 @@ pub fn readers_cmd(args: &[String]) {
         }
         let case: Value = serde_json::from_str(&line).unwrap();
         let (bytes, _, enc) = case_bytes(&case);
-        let eof = enc.as_ref().map_or(bytes.len(), |e| e.end_of_frames);
+        let eof = enc.as_ref().map_or_else(|| end_of_frames(&bytes), |e| e.end_of_frames);
         let (r0, log0, a0, _) = run_scripted(&bytes, vec![Op::Full], None, 0);
         let obs0 = a0.as_ref().map(light_obs);
-        out.ev(&json!({"ev": "base", "case": case["id"], "len": bytes.len(), "eof": eof, "result": r0, "calls": log0}));
+        if r0.starts_with("err:") {
+            // not a loadable file (C14 quantifies over well-formed files)
+            out.ev(&json!({"ev": "skip", "case": case["id"], "why": r0, "crash": false}));
+            continue;
+        }
+        out.ev(&json!({"ev": "base", "case": case["id"], "len": bytes.len(), "eof": eof, "result": r0, "calls": log0,
+            "bytes": if bytes.len() <= 200_000 { json!(bytes) } else { json!([]) }}));
         if obs0.is_none() {
             continue;
         }
